@@ -3,14 +3,19 @@
 //!   `detect.ran`, `build.ran`          marker files
 //!   `on_error.count`                   one line (the error's variant name) appended per `on_error` call
 //!   `context.dump`                     canonical one-line text of the context handed to detect/build
-//! `TBP_DETECT` = pass | passplan | fail | err
-//! `TBP_BUILD`  = ok:<items> | err | layererr   items (comma separated, in result order): launch, store,
-//!                b.cdx b.spdx b.syft (build SBOMs), l.cdx l.spdx l.syft (launch SBOMs); `ok:` alone = empty result.
-//! Payloads are fixed and recognisable: plan provides "tbp-plan", launch has one process "tbpweb", store metadata
-//! {tbp="new"}, SBOM number k (position in the item list) has data `{"tbp-sbom":k}`.
+//! `TBP_DETECT` = pass | passplan | passeplan | passxplan | fail | err
+//! `TBP_BUILD`  = ok:<items> | err | layererr   items (comma separated, applied to the BuildResultBuilder in this order, so
+//!                a later launch/store replaces an earlier one): launch elaunch xlaunch, store estore xstore,
+//!                b.<fmt> be.<fmt> bx.<fmt> (build SBOMs), l.<fmt> le.<fmt> lx.<fmt> (launch SBOMs), fmt = cdx|spdx|syft;
+//!                `ok:` alone = empty result.
+//! Payloads are fixed and recognisable, each in three variants - normal / e = empty-minimal / x = other shape:
+//! plan: provides "tbp-plan" / `BuildPlan::new()` / requires with metadata plus an `or` alternative;
+//! launch: one process "tbpweb" / `Launch::default()` / one label and one slice, no process;
+//! store: metadata {tbp="new"} / empty metadata table / nested metadata;
+//! SBOM number k (position in the item list): `{"tbp-sbom":k}` / no bytes at all / the non-UTF-8 bytes FF 00 followed by k.
 use libcnb::build::{BuildContext, BuildResult, BuildResultBuilder};
-use libcnb::data::build_plan::BuildPlanBuilder;
-use libcnb::data::launch::{LaunchBuilder, ProcessBuilder};
+use libcnb::data::build_plan::{BuildPlan, BuildPlanBuilder, Require};
+use libcnb::data::launch::{Label, Launch, LaunchBuilder, ProcessBuilder, Slice};
 use libcnb::data::sbom::SbomFormat;
 use libcnb::data::store::Store;
 use libcnb::data::{layer_name, process_type};
@@ -93,6 +98,14 @@ impl Buildpack for Tbp {
         match std::env::var("TBP_DETECT").as_deref() {
             Ok("pass") => DetectResultBuilder::pass().build(),
             Ok("passplan") => DetectResultBuilder::pass().build_plan(BuildPlanBuilder::new().provides("tbp-plan").build()).build(),
+            Ok("passeplan") => DetectResultBuilder::pass().build_plan(BuildPlan::new()).build(),
+            Ok("passxplan") => {
+                let mut req = Require::new("tbp-req");
+                let mut md = toml::value::Table::new();
+                md.insert("v".into(), toml::Value::Integer(1));
+                req.metadata(md).unwrap();
+                DetectResultBuilder::pass().build_plan(BuildPlanBuilder::new().requires(req).or().provides("tbp-alt").build()).build()
+            }
             Ok("fail") => DetectResultBuilder::fail().build(),
             _ => Err(libcnb::Error::BuildpackError(TbpError::Requested)),
         }
@@ -118,12 +131,21 @@ impl Buildpack for Tbp {
         let mut r = BuildResultBuilder::new();
         for (k, item) in items.split(',').filter(|s| !s.is_empty()).enumerate() {
             let fmt = |s: &str| match s { "cdx" => SbomFormat::CycloneDxJson, "spdx" => SbomFormat::SpdxJson, _ => SbomFormat::SyftJson };
-            let data = format!("{{\"tbp-sbom\":{k}}}");
-            match item {
+            let sbom = |kind: &str| -> Vec<u8> { match kind { "e" => vec![], "x" => { let mut d = vec![0xff, 0x00]; d.extend_from_slice(k.to_string().as_bytes()); d } _ => format!("{{\"tbp-sbom\":{k}}}").into_bytes() } };
+            let (head, f) = item.split_once('.').unwrap_or((item, ""));
+            match head {
                 "launch" => { r = r.launch(LaunchBuilder::new().process(ProcessBuilder::new(process_type!("tbpweb"), ["run"]).build()).build()); }
+                "elaunch" => { r = r.launch(Launch::default()); }
+                "xlaunch" => { r = r.launch(Launch { labels: vec![Label { key: "tbp".into(), value: "x".into() }], processes: vec![], slices: vec![Slice { path_globs: vec!["*.x".into()] }] }); }
                 "store" => { let mut t = toml::value::Table::new(); t.insert("tbp".into(), toml::Value::String("new".into())); r = r.store(Store { metadata: t }); }
-                s if s.starts_with("b.") => { r = r.build_sbom(Sbom::from_bytes(fmt(&s[2..]), data)); }
-                s if s.starts_with("l.") => { r = r.launch_sbom(Sbom::from_bytes(fmt(&s[2..]), data)); }
+                "estore" => { r = r.store(Store { metadata: toml::value::Table::new() }); }
+                "xstore" => {
+                    let mut n = toml::value::Table::new(); n.insert("a".into(), toml::Value::Array(vec![toml::Value::Integer(1), toml::Value::Integer(2)]));
+                    let mut t = toml::value::Table::new(); t.insert("tbp".into(), toml::Value::String("x".into())); t.insert("nested".into(), toml::Value::Table(n));
+                    r = r.store(Store { metadata: t });
+                }
+                "b" | "be" | "bx" if !f.is_empty() => { r = r.build_sbom(Sbom::from_bytes(fmt(f), sbom(&head[1..]))); }
+                "l" | "le" | "lx" if !f.is_empty() => { r = r.launch_sbom(Sbom::from_bytes(fmt(f), sbom(&head[1..]))); }
                 _ => return Err(libcnb::Error::BuildpackError(TbpError::Requested)),
             }
         }
